@@ -103,13 +103,26 @@ pub fn scenarios(tier: &str) -> Vec<Scenario> {
     let mut about_to_expire = start_with_s();
     about_to_expire.extend(pool_alpha[0].steps.clone());
     about_to_expire.push(Step::Mine(P_BLOCKS - 1));
+    // (the reorg to the current height and the start state in which the parked transaction is about to expire have a
+    // scenario of their own, one step shallower)
+    let pool_alpha_main: Vec<Macro> = pool_alpha.iter().filter(|m| m.name != "R+0").cloned().collect();
     v.push(Scenario {
         name: "pool-window".into(),
         opts: Opts::new("C01", "pool-window"),
-        starts: vec![("S deployed in block 1".to_string(), start_with_s()), ("nonce 1 parked in block 2, expiring with the next block".to_string(), about_to_expire)],
-        alphabet: pool_alpha,
+        starts: vec![("S deployed in block 1".to_string(), start_with_s())],
+        alphabet: pool_alpha_main,
         bounds: Bounds { depth: if thorough { 6 } else { 4 }, dev: vec![1, 2], dev_total: 2 },
         weight: if thorough { 4.0 } else { 2.0 },
+        network: "regtest".into(),
+        traces: true,
+    });
+    v.push(Scenario {
+        name: "pool-expiry".into(),
+        opts: Opts::new("C01", "pool-window"),
+        starts: vec![("nonce 1 parked in block 2, expiring with the next block".to_string(), about_to_expire), ("S deployed in block 1".to_string(), start_with_s())],
+        alphabet: pool_alpha,
+        bounds: Bounds { depth: if thorough { 5 } else { 3 }, dev: vec![1, 2], dev_total: 2 },
+        weight: 1.0,
         network: "regtest".into(),
         traces: true,
     });
